@@ -4,6 +4,7 @@ import (
 	"bytes"
 	"context"
 	"encoding/binary"
+	"strconv"
 	"time"
 
 	"github.com/TarsCloud/TarsGo/tars/protocol"
@@ -162,6 +163,15 @@ func (s *Protocol) req2Byte(rsp *requestf.ResponsePacket) []byte {
 	req.Context = rsp.Context
 	req.Status = rsp.Status
 	req.SBuffer = rsp.SBuffer
+	if rsp.IRet != 0 {
+		// a RequestPacket has no return code field: TUP carries it in the status map
+		req.Status = make(map[string]string, len(rsp.Status)+2)
+		for k, v := range rsp.Status {
+			req.Status[k] = v
+		}
+		req.Status["STATUS_RESULT_CODE"] = strconv.Itoa(int(rsp.IRet))
+		req.Status["STATUS_RESULT_DESC"] = rsp.SResultDesc
+	}
 
 	os := codec.NewBuffer()
 	req.WriteTo(os)
